@@ -1,7 +1,9 @@
-(* C12 -- the executable cap test of the model (over Q) is the sign test of the code's arccos formula
-   (over R) on the same numbers. *)
+(* C12 -- the executable cap test of the model (over Q) is the test of the code's arccos formula (over R, as
+   extracted from the source: Generated/MangleR.v) on the same numbers.  "The same numbers" are the exact
+   rational values of the doubles the implementation holds: the cap (x, cm) and the point p -- given in
+   Cartesian form or computed by angles_to_x from RA/Dec. *)
 From Coq Require Import ZArith QArith Qreals Reals Lra.
-From PV Require Import C12.Model C12.Arccos C12.Proofs.
+From PV Require Import C12.Spec C12.Proofs C12.RBase Generated.MangleR C12.Arccos.
 
 Lemma Q2R_0' : Q2R 0 = 0%R.
 Proof. unfold Q2R. simpl. lra. Qed.
@@ -9,11 +11,12 @@ Proof. unfold Q2R. simpl. lra. Qed.
 Lemma Q2R_1' : Q2R 1 = 1%R.
 Proof. unfold Q2R. simpl. rewrite Rinv_1. lra. Qed.
 
-Lemma in_cap_is_arccos_test c p :
-  (-1 <= Q2R (dot (cx c) p) <= 1)%R -> (-2 <= Q2R (ccm c) <= 2)%R ->
-  (in_cap c p = true <-> (cap_distance_R (Q2R (ccm c)) (Q2R (dot (cx c) p)) >= 0)%R).
+Lemma in_cap_alg_R c p :
+  in_cap c p = true <->
+  if Rlt_dec (Q2R (ccm c)) 0 then (- Q2R (ccm c) <= 1 - Q2R (dot (cx c) p))%R
+  else (1 - Q2R (dot (cx c) p) <= Q2R (ccm c))%R.
 Proof.
-  intros Hd Hc. rewrite (cap_distance_sign _ _ Hd Hc). rewrite in_cap_spec.
+  rewrite in_cap_spec.
   set (d := dot (cx c) p) in *. set (cm := ccm c) in *.
   assert (Q2R (1 - d) = (1 - Q2R d)%R) as E1 by (rewrite Q2R_minus, Q2R_1'; reflexivity).
   assert (Q2R (- cm) = (- Q2R cm)%R) as E2 by apply Q2R_opp.
@@ -31,4 +34,20 @@ Proof.
       * apply Qle_Rle in H. rewrite E1 in H. exact H.
       * exfalso. apply (Qlt_not_le _ _ H0 Hq).
     + intro H. left. split; [exact Hq|]. apply Rle_Qle. rewrite E1. exact H.
+Qed.
+
+Lemma in_cap_is_arccos_test c p :
+  (-1 <= Q2R (dot (cx c) p) <= 1)%R -> (-2 <= Q2R (ccm c) <= 2)%R ->
+  (in_cap c p = true <-> gen_is_in_cap (Q2R (ccm c)) (Q2R (dot (cx c) p))).
+Proof.
+  intros Hd Hc. rewrite (cap_distance_sign _ _ Hd Hc). apply in_cap_alg_R.
+Qed.
+
+(* for cm >= 0 the agreement survives a dot product that rounding pushed above 1 (point at the cap centre) *)
+Lemma in_cap_is_arccos_test_pos c p :
+  (-1 <= Q2R (dot (cx c) p))%R -> (0 <= Q2R (ccm c) <= 2)%R ->
+  (in_cap c p = true <-> gen_is_in_cap (Q2R (ccm c)) (Q2R (dot (cx c) p))).
+Proof.
+  intros Hd Hc. rewrite (cap_distance_clipped_sign _ _ Hd Hc). rewrite in_cap_alg_R.
+  destruct (Rlt_dec (Q2R (ccm c)) 0); [lra|reflexivity].
 Qed.
